@@ -520,7 +520,10 @@ fn check_case(c: &Case) -> Outcome {
     // nodes with a structural fingerprint"; libFuzzer artifact of a thorough sweep)
     // (and once more for every further enclosing node that is itself a key: `? &a {? *d : *d}`)
     let k_replay = match &c.fam {
-        Fam::Doc { doc, .. } => K_REPLAY + 2 * alias_key_depth(doc),
+        // (+2 for generated documents as such: their per-event overhead - fingerprints that own
+        // scalar text, up to two anchored frames below the open finding's threshold - varies more
+        // than that of the fixed families, which keep the tight constant)
+        Fam::Doc { doc, .. } => K_REPLAY + 2 * alias_key_depth(doc) + 2,
         _ => K_REPLAY,
     };
     let bound = C0 + K * (text.len() + EVENT_BYTES * raw_events) + k_replay * EVENT_BYTES * counted_replayed;
